@@ -69,6 +69,7 @@ DiffSet(s, keyRule) ==
      \cup T(o.hm # Last(s.hmS), "hm") \cup T(o.fm # s.fm, "fm") \cup T(o.seen # Last(s.seenS), "seen")
      \cup T("last" \in DOMAIN o /\ (IF o.last.k = "-" THEN s.hist # << >>
                                      ELSE s.hist = << >> \/ MvOf(o.last) # Last(s.hist)), "history")
+     \cup T("gfm" \in DOMAIN o /\ o.gfm # s.fm, "gfm")     \* the Game's own move counter
      \cup T(o.key # KeyC(PosOfObs(o)), "key")
      \cup T(~SumOk, "sum")
      \cup T(~BoardInv(PosOfObs(o)), "inv")
@@ -285,6 +286,16 @@ TLabel ==
 
 \* select_waterfall_book_then_alpha_beta_best_move / select_alpha_beta_best_move: the board is
 \* untouched and, when a legal move exists, the answer is one of the legal moves
+\* the labelled move list the Game hands to its front ends: exactly the legal moves, each with its notation
+TGLabels ==
+  /\ Ev.ev = "GLabels" /\ mode = "ok"
+  /\ \E p \in {Abs(st)} : \E L \in {Legal(p)} :
+     \E listed \in {{ MvOf(Ev.labels[j][1]) : j \in 1..Len(Ev.labels) }} :
+     \E wrong \in {{ j \in 1..Len(Ev.labels) : MvOf(Ev.labels[j][1]) \in L /\ SAN(p, MvOf(Ev.labels[j][1]), L) # Ev.labels[j][2] }} :
+       IF listed # L THEN Reject(st, "the game lists labels for moves that are not the legal moves of its position", [extra |-> listed \ L, missing |-> L \ listed], "stable")
+       ELSE IF wrong # {} THEN Reject(st, "a label listed by the game is not the notation of its move", { Ev.labels[j] : j \in wrong }, "stable")
+       ELSE Accept(st, "listing the labels changed the game", "stable")
+
 TEngineMove ==
   /\ Ev.ev = "EngineMove" /\ mode = "ok"
   /\ \E L \in {Legal(Abs(st))} :
@@ -439,7 +450,7 @@ TGEnding ==
 
 Init == l = 2 /\ st = EmptyEngine /\ keyS = << >> /\ mode = "skip"
 Next == l <= NRec /\ (TReset \/ TSkipped \/ TApply \/ TUndo \/ TToggle \/ TCount \/ TUncount \/ TQuery \/ TEnding
-                       \/ TGReset \/ TGToggle \/ TCoordBatch \/ TCoord \/ TLabelBatch \/ TLabel \/ TEngineMove \/ TGEnding \/ TBookEdges \/ TSearch \/ TCli \/ TCliReset \/ TWatch \/ TWatchEnd \/ TBridge \/ TBridgeEnd \/ TClone \/ TCloneUndo \/ TMoves \/ TCrash
+                       \/ TGReset \/ TGToggle \/ TCoordBatch \/ TCoord \/ TLabelBatch \/ TLabel \/ TEngineMove \/ TGEnding \/ TBookEdges \/ TSearch \/ TCli \/ TCliReset \/ TWatch \/ TWatchEnd \/ TBridge \/ TBridgeEnd \/ TClone \/ TCloneUndo \/ TMoves \/ TCrash \/ TGLabels
                        \/ TEReset \/ TPut \/ TRemove \/ TLoseRights \/ TPushEp \/ TPopEp)
 Spec == Init /\ [][Next]_vars
 
